@@ -46,7 +46,7 @@ class ProgSim(Sim):
     MAX_EVENTS = 40
     PROBES = ["diamond", "path_length_mismatch", "same_operand_twice", "fanout3", "unbind_2_outputs_used", "frozen_joins_trainable",
               "nonscalar_root_nonuniform_g", "O1_judged", "O3_judged", "O3_skipped_perop_defect", "O4_schedules",
-              "gc_between_steps", "forward_fault", "rejected_step", "leaf_without_grad", "float32_node_in_program", "scalar_root_g_none",
+              "gc_between_steps", "forward_fault", "rejected_step", "interrupted_sweep_then_same_program_again", "leaf_without_grad", "float32_node_in_program", "scalar_root_g_none",
               "multi_contribution_leaf", "O5_frozen_invariance", "deep_program", "flagmix_scenario"]
     RULE = ("one run = one generated DAG program (2-6 leaves, 3-16 steps over the op catalogue, biased per run to a scenario) differentiated "
             "under 1-4 construction orders; distinct = canonical form of the op DAG reachable from the root (op names, sharing pattern, which "
@@ -156,7 +156,14 @@ class ProgSim(Sim):
                 g = None
             else:
                 g = enc(small_values(rng, t.data.shape, np.float64, -2, 2, avoid_zero=True))
-            return {"k": "backward", "root": root, "g": g}
+            ev = {"k": "backward", "root": root, "g": g}
+            if kn["faulty"] and rng.random() < 0.35:
+                # a first sweep over the program is interrupted (at a backward function, or at an arbitrary line); the caller resets the
+                # leaves and differentiates the SAME program again: that sweep must satisfy every clause
+                n = max(1, len(st.G.reach(root)))
+                ev["pre_fault"] = ({"kind": rng.choice(["alloc", "interrupt", "exit"]), "seam": "bw", "at": rng.randint(1, n)} if rng.random() < 0.5 else
+                                   {"kind": rng.choice(["alloc", "interrupt", "exit"]), "seam": "line", "at": rng.randint(1, 60 + 110 * n)})
+            return ev
         if st.phase == "sched":
             if st.root is None or st.sched_done >= kn["n_sched"]:
                 return None
@@ -516,6 +523,23 @@ class ProgSim(Sim):
         if st.knobs["scenario"] == "flagmix":
             st.probes["flagmix_scenario"] += 1
 
+        pf = ev.get("pre_fault")
+        if pf:
+            gt0 = None if g is None else SG.Tensor(g.copy())
+            try:
+                with quiet(), SEAM.armed(pf):
+                    t.backward(gt0)
+            except SimFault as e:
+                st.faults[f"sweep_{pf['seam']}_{pf['kind']}"] += 1
+                st.probes["interrupted_sweep_then_same_program_again"] += 1
+                st.kept = getattr(st, "kept", []) + [e]
+            except Exception:
+                pass
+            SEAM.disarm()
+            for i in G.leaves(reach):
+                if G.T[i].requires_grad:
+                    with quiet():
+                        G.T[i].zero_()
         # ---- the system: one backward on the DAG, traced through the backward-function seam
         SEAM.bw_calls = []
         raised = None
